@@ -7,6 +7,7 @@ import (
 	"os"
 	"path/filepath"
 	"sort"
+	"strings"
 	"time"
 
 	"golang.org/x/tools/go/packages"
@@ -27,6 +28,8 @@ func main() {
 	repo := flag.String("repo", "/repo", "path of the murex tree to analyse")
 	verif := flag.String("verif", "", "verif directory (default: parent of the checker binary's dir)")
 	explain := flag.String("explain", "", "print the full report (replay)")
+	overlay := flag.String("overlay", "", "self-test: comma separated list of <file in repo>=<replacement file>; the replacement is analysed instead of the file on disk")
+	noev := flag.Bool("noevidence", false, "self-test: do not write evidence/report files")
 	flag.Usage = func() {
 		fmt.Fprintf(os.Stderr, "usage: murexlint [flags] <property|list> [quick|thorough]\n")
 		flag.PrintDefaults()
@@ -69,7 +72,21 @@ func main() {
 	}
 	abs, _ := filepath.Abs(*repo)
 	c := &Ctx{Prop: args[0], Tier: tier, Repo: abs, VerifD: vd, Fset: token.NewFileSet(),
-		All: map[string]*packages.Package{}, start: time.Now(), Explain: *explain}
+		All: map[string]*packages.Package{}, start: time.Now(), Explain: *explain, NoEvidence: *noev}
+	if *overlay != "" {
+		c.Overlay = map[string][]byte{}
+		for _, kv := range strings.Split(*overlay, ",") {
+			p := strings.SplitN(kv, "=", 2)
+			if len(p) != 2 {
+				fatal("bad -overlay")
+			}
+			b, err := os.ReadFile(p[1])
+			if err != nil {
+				fatal("overlay: %v", err)
+			}
+			c.Overlay[filepath.Join(abs, p[0])] = b
+		}
+	}
 	defer func() {
 		if r := recover(); r != nil {
 			fmt.Fprintf(os.Stderr, "checker panic: %v\n", r)
